@@ -305,7 +305,8 @@ class LP_Solver:
                 self.optimisation_mincostlsb(additional_arguments)
 
             # Exit early if one of the optimisations is not solved.
-            if not LpStatus[self.prob.status] == self.model.OPTIMAL_PULP_STATUS:
+            if (self.num_solves > 0 and 
+                not LpStatus[self.prob.status] == self.model.OPTIMAL_PULP_STATUS):
                 return None
 
     
